@@ -59,6 +59,8 @@ pub enum KOp {
     /// more(); after the first item a new call object is tried (refused: busy); the iteration is
     /// continued to its end; then the *refused* call object is issued again, this time with oneway()
     BusyRetryOneway { conts: u8, fin: RSpec },
+    /// upgrade(): like call(), the request carries the upgrade flag; judged like a call
+    Upgrade(RSpec),
     /// a call whose parameters cannot be serialised (mode 0 call(), 1 more(), 2 oneway()): it fails
     /// before anything is sent, so no call is outstanding afterwards
     Unser { mode: u8 },
@@ -83,6 +85,9 @@ pub struct KCase {
     pub eager: u8,
     /// fault: the server closes the connection after this many reply bytes
     pub eof_after: Option<usize>,
+    /// every `continues` reply carries a `pad` member of this many bytes (huge streams)
+    #[serde(default)]
+    pub cont_pad: usize,
     pub sched: SchedCfg,
 }
 
@@ -152,9 +157,25 @@ fn expected_outcome(spec: &RSpec, token: &str) -> String {
 
 fn outcome_of(r: &Result<Value, varlink::Error>) -> String {
     match r {
-        Ok(v) => format!("Ok:{}", v),
+        Ok(v) => format!("Ok:{}", short_pad(v)),
         Err(e) => err_outcome(e),
     }
+}
+
+/// a long `pad` member (huge replies) is recorded by its length and first byte only
+fn short_pad(v: &Value) -> Value {
+    match v.get("pad").and_then(|p| p.as_str()) {
+        Some(p) if p.len() > 100_000 => {
+            let mut w = v.clone();
+            w["pad"] = json!(pad_mark(p.len()));
+            w
+        }
+        _ => v.clone(),
+    }
+}
+
+fn pad_mark(n: usize) -> String {
+    format!("<{} bytes of x>", n)
 }
 
 fn err_outcome(e: &varlink::Error) -> String {
@@ -244,10 +265,10 @@ fn run_task(net: NetRef, conn: Arc<shuttle::sync::RwLock<Connection>>, task: usi
             MethodCall::<Value, Value, varlink::Error>::new(conn.clone(), "org.sim.k.Do", json!({"token": tok, "spec": spec}))
         };
         match op {
-            KOp::Call(spec) | KOp::Resend(spec) => {
+            KOp::Call(spec) | KOp::Resend(spec) | KOp::Upgrade(spec) => {
                 let mut mc = new_call(&token, json!({"final": spec_json(spec)}));
                 let inv = net.stamp(format!("inv {} call", token));
-                let r = mc.call();
+                let r = if matches!(op, KOp::Upgrade(_)) { mc.upgrade() } else { mc.call() };
                 let ret = net.stamp(format!("ret {} call", token));
                 rec(OpRec { task, op: oi, what: "call", item: 0, token: token.clone(), inv, ret, outcome: outcome_of(&r) });
                 if matches!(op, KOp::Resend(_)) {
@@ -489,6 +510,8 @@ pub fn run_k(case: &KCase) -> (SimEnd, crate::sched::SimStats, KObs) {
                             for i in 0..conts {
                                 let fr = if err_at == Some(i) {
                                     json!({"continues": true, "error": CUSTOM_ERR, "parameters": {"token": tok, "i": i}})
+                                } else if c.cont_pad > 0 {
+                                    json!({"continues": true, "parameters": {"token": tok, "i": i, "pad": "x".repeat(c.cont_pad)}})
                                 } else {
                                     json!({"continues": true, "parameters": {"token": tok, "i": i}})
                                 };
@@ -691,7 +714,7 @@ pub fn judge_k(case: &KCase, end: &SimEnd, o: &KObs) -> (Vec<Violation>, bool) {
                 continue;
             }
             match op {
-                KOp::Call(spec) | KOp::Resend(spec) => {
+                KOp::Call(spec) | KOp::Resend(spec) | KOp::Upgrade(spec) => {
                     let want = expected_outcome(spec, &token);
                     if main.outcome != want && !(faulty && conn_level(&main.outcome)) {
                         v.push(viol(
@@ -803,6 +826,10 @@ pub fn judge_k(case: &KCase, end: &SimEnd, o: &KObs) -> (Vec<Violation>, bool) {
                         let want = if j < *conts as usize && err_at == Some(j) {
                             // an error item in mid-stream: reported as that error, and the stream goes on
                             format!("E:Reply:{}:{}", CUSTOM_ERR, json!({"i": j, "token": token}))
+                        } else if j < *conts as usize && case.cont_pad > 100_000 {
+                            format!("Ok:{}", json!({"i": j, "pad": pad_mark(case.cont_pad), "token": token}))
+                        } else if j < *conts as usize && case.cont_pad > 0 {
+                            format!("Ok:{}", json!({"i": j, "pad": "x".repeat(case.cont_pad), "token": token}))
                         } else if j < *conts as usize {
                             format!("Ok:{}", json!({"i": j, "token": token}))
                         } else if j == *conts as usize {
@@ -1064,6 +1091,7 @@ fn op_alphabet() -> Vec<KOp> {
         KOp::MoreErr { conts: 2, err_at: 0, fin: RSpec::Ok, nexts: 4 },
         KOp::MoreResend { conts: 2, fin: RSpec::Ok },
         KOp::Unser { mode: 0 },
+        KOp::Upgrade(RSpec::Ok),
         KOp::BusyRetryOneway { conts: 1, fin: RSpec::Ok },
     ]
 }
@@ -1071,6 +1099,7 @@ fn op_alphabet() -> Vec<KOp> {
 fn random_op(rng: &mut Rng, specs: &[RSpec], allow_abandon: bool) -> KOp {
     match rng.below(10) {
         0..=2 => KOp::Call(rng.pick(specs).clone()),
+        3 if rng.chance(1, 4) => KOp::Upgrade(rng.pick(specs).clone()),
         3 => KOp::CallTyped(rng.pick(specs).clone()),
         4 => KOp::Oneway,
         5 => if rng.chance(1, 3) { KOp::OnewayResend } else { KOp::Oneway },
@@ -1125,6 +1154,7 @@ fn base_case(tasks: Vec<Vec<KOp>>, sched: SchedCfg) -> KCase {
         srv_chunks: vec![],
         eager: 0,
         eof_after: None,
+        cont_pad: 0,
         sched,
     }
 }
@@ -1292,6 +1322,35 @@ pub fn c05_spaces(tier: Tier) -> Vec<Space> {
                     }
                 }
                 Case::K(base_case(vec![ops], SchedCfg::uniform(seed)))
+            }),
+        });
+    }
+    {
+        // huge streams: 3..7 continues replies of 1..6 MiB each in one iteration (up to ~40 MiB in
+        // total, every single reply far smaller), then ordinary traffic on the same connection
+        let n = if tier == Tier::Quick { 6 } else { 60 };
+        spaces.push(Space {
+            name: "K.stream.huge",
+            size: n,
+            exhaustive: false,
+            gen: Box::new(move |idx, seed| {
+                let mut rng = Rng::new(seed);
+                let (conts, pad) = match idx % 3 {
+                    0 => (7u8, 6 << 20),
+                    1 => (5u8, 4 << 20),
+                    _ => (rng.range(3, 7) as u8, (rng.range(1, 6) as usize) << 20),
+                };
+                let ops = vec![
+                    KOp::More { conts, fin: RSpec::Ok, nexts: conts + 2, nested: false },
+                    KOp::Call(RSpec::Ok),
+                    KOp::More { conts: 1, fin: RSpec::Ok, nexts: 3, nested: false },
+                ];
+                let mut c = base_case(vec![ops], SchedCfg::uniform(seed));
+                c.cont_pad = pad;
+                if idx % 2 == 1 {
+                    c.srv_chunks = (0..40).map(|_| rng.range(20_000, 65_000) as u16).collect();
+                }
+                Case::K(c)
             }),
         });
     }
